@@ -28,6 +28,13 @@ R10 the btls ready-state decision table, folded exactly over its 48 inputs:
     direction OpenSSL was not asked about since is either signalled (bell)
     or watched on the sub-socket; a direction OpenSSL was asked about waits
     for what OpenSSL said it wants.
+R11 the data ops advance the connection before they look at its state: in a
+    transport whose connections pass through transitional states (resolving,
+    connecting, handshaking), send, receive and finish each call the helper
+    that consumes the pending event and moves the state machine before the
+    first test of the state.  (The descriptor stays readable until somebody
+    consumes the event: an op that answers EAGAIN from a stale state makes the
+    application spin, or hang when it only ever calls that op.)
 """
 from .. import cfg as C
 from .. import seq as S
@@ -370,6 +377,65 @@ def run(ctx):
         r10.violation("%s:ready-table" % cu.qname, "%s [%s]" % (why, BF.describe(r)), loc=cu.file)
     else:
         r10.ok("all %d rows: %d ring the bell, %d hand exactly the needed interest to the sub-socket" % (len(rows), sum(1 for r in rows if r["bell"]), sum(1 for r in rows if not r["bell"])), "exact folding")
+
+    # ------------------------------------------------------------------ R11
+    r11 = ctx.rule("C04.R11", "send/receive/finish advance the connection state machine before they test the state")
+    for proto in ("btcp", "btls"):
+        t = [x for x in tables if x.proto == proto][0]
+        en = [e for e in t.unit.enums if e["name"] == "conn_state"][0]
+        trans = [c["name"] for c in en["constants"] if c["name"].split("conn_state_")[-1] not in ("none", "initialized", "ready", "closed", "bad")]
+        if not trans:
+            raise Broken("C04.R11: %s has no transitional connection state" % proto)
+        file_fns = [g for g in P.fns_in(t.slots["send"].file.split("/")[-1]) if g.file == t.slots["send"].file]
+        slot_fns = {g for g in t.slots.values() if g is not None}
+        storing = {g for g in file_fns if any(g.fields_of(lhs)[-1:] == ("state",) for b, i, e, lhs, rhs, op in g.stores())}
+        drivers = set()
+        changed = True
+        while changed:
+            changed = False
+            for g in file_fns:
+                if g in drivers or g in slot_fns or not g.static:
+                    continue
+                callees = {d for c in g.calls() for d in P.callees(g, c)[0]}
+                if g in storing or callees & drivers:
+                    # a driver moves the state forward: it stores a non-terminal state somewhere below
+                    drivers.add(g)
+                    changed = True
+        if not drivers:
+            raise Broken("C04.R11: no state-advancing helper found in %s" % t.slots["send"].file)
+        for slot in ("send", "receive", "finish"):
+            f = t.slots[slot]
+            r11.instance("%s.%s" % (proto, slot))
+            stale = []
+            ntest = [0]
+
+            class Adv(S.SeqRule):
+                def user0(s2, fn):
+                    return False
+
+                def inline(s2, fn, nid, callee):
+                    return False
+
+                def on_call(s2, fn, st, nid, callees, exts):
+                    if any(d in drivers for d in callees):
+                        return True
+                    return None
+
+                def on_branch(s2, fn, st, blk, cond, label):
+                    if cond is not None and TP.mentions_field(fn, cond, "state"):
+                        ntest[0] += 1
+                        if not st.user and not stale:
+                            stale.append(cond)
+                    return None
+            S.run(Adv(P), f)
+            if ntest[0] < 1:
+                raise Broken("C04.R11: %s never tests the connection state" % f.qname)
+            if stale:
+                r11.violation("%s:stale-state" % f.name, "%s tests the connection state (%s) on a path where none of %s has run in this call: a pending resolver/connect/"
+                              "handshake event is not consumed, the op answers from the old state and the descriptor stays ready"
+                              % (f.name, f.show(stale[0])[:60], sorted(d.name for d in drivers if any(True for _ in [1]))[:6]), loc=f.loc(stale[0]))
+            else:
+                r11.ok("%s advances the state machine before every test of the state" % f.qname, "path exploration")
 
     pe = P.fn("process_ssl_event")
     r6.instance(pe.qname)
